@@ -222,10 +222,20 @@ class ShelxlRefine():
         print(sep_line)
         print(' Running SHELXL with "{}" and "{}"'.format(' '.join(command_line), self.shx.cycles))
         with subprocess.Popen(command_line, stdout=subprocess.PIPE, stderr=subprocess.STDOUT, bufsize=1,
-                              universal_newlines=True) as p:
+                              universal_newlines=True, errors='replace') as p:
             for line in p.stdout.readlines():
                 # output only the most importand things from shelxl:
-                self.pretty_shx_output(line)
+                try:
+                    self.pretty_shx_output(line)
+                except SystemExit:
+                    # SHELXL could not open the hkl file. That is a failed run: its status is
+                    # evaluated (and the res file restored) below, like for any other failure.
+                    status = False
+                except Exception:
+                    # The output is only filtered for display. Whatever SHELXL prints, the status of the
+                    # run still has to be evaluated and the res file restored or reloaded.
+                    if self.shx.debug:
+                        raise
         lstfile = Path(f'{self.resfile_name}.lst')
         if lstfile.exists() and lstfile.is_file():
             try:
